@@ -458,6 +458,60 @@ def gen_random(rng, nsteps, params, gc_rate=0.03, big=True, maxlive=40):
     return ops
 
 
+def gen_auto_garbage(rng, sizes, k, nalloc, ring=512):
+    """Automatic collection level with garbage: allocate blocks of the given sizes, keep 1 in k referenced from
+    the root table (a ring of `ring` slots: the block pushed out of the ring becomes garbage too), drop the
+    others without freeing them.  The allocator has to collect by itself, inside stoAlloc."""
+    ops = [("L", 2)]
+    slots = {}                  # slot -> id
+    free_ids = list(range(ring + 8, -1, -1))
+    nkept = 0
+    for i in range(nalloc):
+        bid = free_ids.pop()
+        n = rng.choice(sizes)
+        ops.append(("a", bid, n, rng.randint(0, 31)))
+        if i % k == 0:
+            slot = nkept % ring
+            nkept += 1
+            ts = n      # the offset stays inside the requested size
+            off = 0 if rng.random() < 0.5 else rng.randrange(ts)
+            ops.append(("R", slot, bid, off))
+            old = slots.get(slot)
+            slots[slot] = bid
+            if old is not None:
+                ops.append(("d", old))
+                free_ids.append(old)
+        else:
+            ops.append(("d", bid))
+            free_ids.append(bid)
+    return ops
+
+
+def sanitize_auto(ops):
+    """Validity filter for the automatic-level streams (used while shrinking)."""
+    live, roots, out = set(), {}, []
+    for o in ops:
+        k = o[0]
+        if k == "L":
+            out.append(o)
+        elif k == "a":
+            if o[1] in live:
+                continue
+            live.add(o[1]); out.append(o)
+        elif k in ("d", "f"):
+            if o[1] in live and o[1] not in roots.values():
+                live.discard(o[1]); out.append(o)
+        elif k == "R":
+            if o[2] < 0:
+                roots.pop(o[1], None); out.append(o)
+            elif o[2] in live:
+                roots[o[1]] = o[2]; out.append(o)
+        elif k == "r":
+            if o[1] in live:
+                out.append(o)
+    return out
+
+
 def split_excursions(ops, levels):
     """ops = sibling excursions '( op ... )'; returns chains '( op ( op ... ) )' that each follow one path
     for the first `levels` steps and contain the complete subtree below."""
@@ -560,6 +614,10 @@ class Oracle:
                       "setptr": 0, "setroot": 0, "fixed_alloc": 0, "mixed_alloc": 0, "branches": 0}
         self.sizes_seen = set()
         self.use_model = use_model
+        self.bgc = None
+        self.allocs_since_gc = 0
+        self.intervals = []
+        self.track_capacity = False
         self.origin = None      # raw address of the first page of the first section
         self.base_of = {}       # section ordinal -> base page
 
@@ -624,6 +682,19 @@ class Oracle:
             self.bad("contents of live block changed: pat=%s" % kv.get("pat"), step)
         if kv.get("lost", "-1") != "-1":
             self.bad("live block %s is no longer allocated" % kv.get("lost"), step)
+        # collections (explicit or run by the allocator itself) show as an increase of stoBytesGc
+        bgc = kv.get("bgc")
+        if bgc is not None:
+            if self.bgc is not None and bgc != self.bgc:
+                self.stats["collections_seen"] = self.stats.get("collections_seen", 0) + 1
+                if self.track_capacity:
+                    self.intervals.append(self.allocs_since_gc)
+                    big = max(self.intervals[:-1] or [0])
+                    if big >= 256 and self.allocs_since_gc * 16 < big:
+                        self.bad("only %d allocations served between two collections run by the allocator "
+                                 "(earlier: %d): free pieces are being lost" % (self.allocs_since_gc, big), step)
+                self.allocs_since_gc = 0
+            self.bgc = bgc
 
     def new_sections(self, canon_part):
         res = []
@@ -663,6 +734,7 @@ class Oracle:
         k = op[0]
         if k == "a":
             st["alloc"] += 1
+            self.allocs_since_gc += 1
             bid, n = op[1], op[2]
             self.sizes_seen.add(n)
             if " null" in canon:
@@ -773,17 +845,21 @@ class Oracle:
                     self.del_block(bid)
             self.model_in.append("g " + " ".join("%d" % c for c in roots))
             self.expect.append(canon_cmp)
+        elif k == "d":
+            if op[1] in self.blocks:
+                self.del_block(op[1])
         elif k == "L":
             pass
         return True
 
 
-def check_history(tools, params, ops, use_model=True, timeout=900):
+def check_history(tools, params, ops, use_model=True, timeout=900, capacity=False):
     """Run one history through implementation, oracle and model.
     Returns dict(viol=[(what, step)], mismatch=None|(index, expected, got), stats, ...)."""
     rc, hl, err = run_harness(tools, ops, timeout)
     hl = [l for l in hl if l.strip() != ""]
     orc = Oracle(params, use_model)
+    orc.track_capacity = capacity
     li, i, n = 0, 0, len(ops)
     aborted = False
     while i < n:
@@ -823,7 +899,7 @@ def check_history(tools, params, ops, use_model=True, timeout=900):
             break
         i += 1
     res = {"viol": orc.viol, "mismatch": None, "stats": orc.stats, "sizes": orc.sizes_seen,
-           "hl": hl, "model_lines": 0}
+           "hl": hl, "model_lines": 0, "intervals": orc.intervals}
     if use_model and not orc.viol:
         rc2, ml, err2 = run_model(tools, orc.model_in, timeout)
         res["model_lines"] = len(ml)
@@ -843,21 +919,25 @@ def check_history(tools, params, ops, use_model=True, timeout=900):
     return res
 
 
-def failing(tools, params, ops, want):
+def _san(ops, params, auto):
+    return sanitize_auto(ops) if auto else sanitize(ops, params)
+
+
+def failing(tools, params, ops, want, auto=False):
     """Does the (sanitised) history still show a failure of kind `want` ('viol' or 'mismatch')?"""
-    ops = sanitize(ops, params)
+    ops = _san(ops, params, auto)
     if not ops:
         return False
-    r = check_history(tools, params, ops, use_model=(want == "mismatch"))
+    r = check_history(tools, params, ops, use_model=(want == "mismatch"), capacity=auto)
     return bool(r["viol"]) if want == "viol" else (r["mismatch"] is not None and not r["viol"])
 
 
-def shrink(tools, params, ops, want, budget=400):
+def shrink(tools, params, ops, want, budget=400, auto=False):
     """ddmin-like reduction of a failing history (ops referencing vanished blocks are dropped by the
     sanitiser), then size reduction."""
-    ops = [o for o in sanitize(ops, params)]
+    ops = [o for o in _san(ops, params, auto)]
     # cut after the failing step first
-    r = check_history(tools, params, ops, use_model=(want == "mismatch"))
+    r = check_history(tools, params, ops, use_model=(want == "mismatch"), capacity=auto)
     if want == "viol" and r["viol"]:
         last = max(0, min(s for (_, s) in r["viol"]))
         ops = ops[:last + 1]
@@ -869,8 +949,8 @@ def shrink(tools, params, ops, want, budget=400):
         for i in range(0, len(ops), chunk):
             cand = ops[:i] + ops[i + chunk:]
             calls += 1
-            if cand and failing(tools, params, cand, want):
-                ops = sanitize(cand, params)
+            if cand and failing(tools, params, cand, want, auto):
+                ops = _san(cand, params, auto)
                 n = max(n - 1, 2)
                 reduced = True
                 break
@@ -880,7 +960,7 @@ def shrink(tools, params, ops, want, budget=400):
             if chunk == 1:
                 break
             n = min(len(ops), n * 2)
-    return sanitize(ops, params)
+    return _san(ops, params, auto)
 
 
 # ---------------------------------------------------------------- searcher for a broken proof
@@ -939,9 +1019,10 @@ def searcher_factory(rep, state):
 # ---------------------------------------------------------------- run
 
 def report_failure(rep, tools, params, ops, r, tag):
+    auto = tag.startswith("auto")
     if r["viol"]:
-        small = shrink(tools, params, ops, "viol")
-        r2 = check_history(tools, params, small, use_model=False)
+        small = shrink(tools, params, ops, "viol", budget=(40 if auto else 400), auto=auto)
+        r2 = check_history(tools, params, small, use_model=False, capacity=auto)
         v = r2["viol"] or r["viol"]
         if not r2["viol"]:
             small = ops[:max(s for (_, s) in r["viol"]) + 1]
@@ -1045,11 +1126,12 @@ _W = None
 def _work(item):
     tools, pv = _W
     tag, ops, use_model = item
-    if tag.startswith("auto-gc"):
-        ops2 = ops           # already valid; rooted blocks must not be dropped by the sanitiser's gc rule
+    auto = tag.startswith("auto")
+    if auto:
+        ops2 = ops           # already valid; the sanitiser's rules are for the explicit-collection streams
     else:
         ops2 = sanitize(ops, pv)
-    r = check_history(tools, pv, ops2, use_model=use_model)
+    r = check_history(tools, pv, ops2, use_model=use_model, capacity=auto)
     r = dict(r)
     r["hl"] = r["hl"][-15:]
     return tag, ops2, r
@@ -1126,8 +1208,28 @@ def run(rep, tier):
         elif o[0] == "f" and o[1] in slot_of:
             auto.append(("R", slot_of.pop(o[1]), -1, 0))
     streams.append(("auto-gc", auto, False))
+    # automatic level WITH garbage: the allocator collects by itself inside stoAlloc and reclaims
+    # unreferenced, never-freed pieces from pages that also hold live ones
+    cls = pv["fixedSize"]
+    if quick:
+        plan = [([cls[1]], 2, 20000), ([cls[1]], 8, 42000), ([cls[2]], 2, 12000), ([cls[8]], 64, 10000),
+                ([cls[-1]], 8, 7000), ([700], 8, 3500), ([3000, 300], 2, 1500),
+                ([cls[0], cls[1], cls[4]], 8, 30000)]
+    else:
+        plan = []
+        for ci, c in enumerate(cls):
+            per16 = 16 * ((pv["PgSize"][0] - pv["SectionHeadSize"][0]) // (c + 1))
+            plan.append(([c], (2, 8, 64)[ci % 3], 12 * per16))
+            plan.append(([c - 1 if c > 1 else c], (8, 64, 2)[ci % 3], 12 * per16))
+        plan += [([700], 8, 5000), ([700], 2, 3000), ([3000, 300], 2, 3000), ([257, 5000, 70000], 8, 2500),
+                 (list(cls[:6]), 8, 40000), (list(cls), 64, 30000)]
+    for gi, (szs, k, na) in enumerate(plan):
+        rng = C.rng("c10-autogarbage-%d" % gi)
+        streams.append(("auto-garbage:%d:sizes=%s:keep1in%d" % (gi, ",".join(map(str, szs)), k),
+                        gen_auto_garbage(rng, szs, k, na), False))
 
     totals = {}
+    auto_intervals = {}
     sizes = set()
     failures = []
     model_lines = 0
@@ -1144,6 +1246,8 @@ def run(rep, tier):
                 totals[k] = totals.get(k, 0) + v
             sizes |= r["sizes"]
             model_lines += r["model_lines"]
+            if tag.startswith("auto-garbage"):
+                auto_intervals[tag] = r.get("intervals", [])[:12]
             if r["viol"] or r["mismatch"]:
                 failures.append((tag, ops2, r))
     for tag, ops2, r in failures[:3]:
@@ -1163,6 +1267,7 @@ def run(rep, tier):
                 class_boundaries_covered="%d/%d" % (covered_bounds, len(cls)),
                 input_distribution=totals,
                 samples=[script_text(sanitize(streams[len(corpus_histories())][1], pv)[:6]).replace("\n", "; ")],
+                allocations_between_implicit_collections=auto_intervals,
                 proof_stage_s=round(t_proof, 1))
     rep.assume(
         "extraction: ExtrOcamlBasic only; Z, positive and nat are the extracted inductive types",
